@@ -728,6 +728,22 @@ class CWorldMonitor:
                 r = self.rpcs.get(sid_)
                 if r and st["sent"] > self.peer_win + r["credit"]:
                     v.append(("C06", "sender-exceeds-window", f"stream {sid_}: {st['sent']} request bytes sent with window {self.peer_win} + credit {r['credit']}"))
+        # ---- C02: headers are available as soon as the headers frame has arrived: Header() does not block any longer ----
+        if op.startswith("c.call") and kind == "header" and sid in self.rpcs:
+            r_ = self.rpcs[sid]
+            answered = any(d[0] == sid and d[1] == "header" for d in o["D"])
+            if r_.get("hdr_seen") and not answered and not self.finished:
+                v.append(("C02", "header-blocks-although-headers-arrived", f"stream {sid}: the headers frame (md {r_.get('hdr')}) has been received but Header() "
+                                                                           f"is still blocked"))
+            r_["hdr_pending"] = not answered
+        for dsid, dop, res in o["D"]:
+            if dop == "header" and dsid in self.rpcs:
+                self.rpcs[dsid]["hdr_pending"] = False
+        if op.startswith("c.frame") and kind == "hdr" and sid in self.rpcs and self.rpcs[sid].get("hdr_pending") \
+                and self.rpcs[sid].get("hdr_seen") and not self.finished and o["T"] is not None and sid in o["T"]:
+            v.append(("C02", "header-blocks-although-headers-arrived", f"stream {sid}: a caller is blocked in Header(); the headers frame arrived "
+                                                                       f"but did not release it"))
+            self.rpcs[sid]["hdr_pending"] = False
         # ---- C09: a response that carries more data than its envelope declared fails that RPC (Internal) as soon as the caller reads it ----
         if op.startswith("c.call") and kind == "recv" and sid in self.rpcs:
             self.rpcs[sid]["recv_pending"] = not any(d[0] == sid and d[1] == "recv" for d in o["D"])
